@@ -1302,6 +1302,9 @@ class Frame(ContainerOperand):
             :obj:`static_frame.Frame`
         '''
         # from a structured array, we assume we want to get the columns labels
+        if array.flags.writeable:
+            # the per-field arrays are views: copy so that later writes by the caller are not visible
+            array = array.copy()
         data, index_arrays, columns_labels = cls._structured_array_to_d_ia_cl(
                 array=array,
                 index_depth=index_depth,
